@@ -23,7 +23,9 @@ META = {
             "multi-location results, Tuple/Call/Assign/ClassDef/statement nodes) through the real match_location / UtilsMixin / "
             "FileContext / _process_file code; end to end: per SAST codemod a project with one file per subset S of n in {2,3} "
             "(thorough: up to 4) equally vulnerable sites at random indentation/column offsets, reported in the tool's own "
-            "format with decoys (foreign rule, foreign file, RESOLVED/CLOSED, empty result file); non-trivial = a case where at "
+            "format with decoys (foreign rule, foreign file, RESOLVED/CLOSED, empty result file); about half of the files with "
+            "reported sites live under the default-excluded locations of find-and-fix codemods (tests/, build/, venv/, conftest.py, "
+            "__tests__, dist/, site-packages), which SAST codemods must not apply; non-trivial = a case where at "
             "least one site is reported and at least one is not, or a span/location pair within two columns of matching",
     "trusted": ["libcst PositionProvider gives the spans the transformers see (the harness uses the same provider)",
                 "json / pathlib of CPython"],
@@ -414,6 +416,9 @@ def build_project(ctx, t: S.Template, n: int, root: Path, scenario="subsets"):
         masks = [1, 2, 3]
     elif scenario == "dd_inner_line":
         masks = [1]
+    excluded_dirs = ["tests/test_f{m}.py", "build/lib/f{m}.py", "venv/f{m}.py", "conftest.py", "src/__tests__/f{m}.py",
+                     "dist/f{m}.py", "test/f{m}.py", "lib/site-packages/f{m}.py"]
+    rng.shuffle(excluded_dirs)
     kid = [0]
 
     def key():
@@ -423,6 +428,12 @@ def build_project(ctx, t: S.Template, n: int, root: Path, scenario="subsets"):
     for mask in masks:
         src, stmts = S.gen_program(rng, t, n, same_line_pair=(scenario == "same_line"), multiline=(scenario == "dd_inner_line"))
         fn = f"pkg/f{mask}.py"
+        if scenario == "subsets" and mask != 0:
+            # SAST codemods honour the user's patterns WITHOUT the default excludes of find-and-fix codemods: reported
+            # sites in test code, build output, virtualenvs and conftest.py must be fixed like any other
+            alt = excluded_dirs[mask % len(excluded_dirs)].format(m=mask)
+            if alt not in files and (mask % 2 == 1 or rng.random() < 0.4):
+                fn = alt
         sites, tested, cands = S.analyse(src, t, n)
         info = {"src": src, "stmts": stmts, "sites": sites, "tested": tested, "cands": cands, "expected": [], "site_key": {}}
         for i in range(1, n + 1):
@@ -613,6 +624,7 @@ def run_e2e(ctx):
         for fn, info in job["files"].items():
             of = o["files"][fn]
             ctx.count(f"e2e:subset_size:{len(info['expected'])}of{len(info['sites'])}")
+            ctx.count("e2e:file_location:" + ("default_excluded_path" if not fn.startswith("pkg") else "ordinary"))
             cases.append(e2e_case_term(ctx, t, fn, info, job["entries"], of))
             meta.append((job, fn, info, of))
             k = len(info["expected"])
